@@ -23,6 +23,9 @@ THEOREMS = [
     "VK.psc_final",
     "VK.C07_droop_psc_fractional",
     "VK.C07_irv_majority",
+    "VK.fpv_link",
+    "VK.C07_droop_psc",
+    "VK.C07_DroopPSC_holds_for_untied_profiles",
 ]
 RULE = ("cases = STV / IRV with the Droop quota, fractional or random transfer, simultaneous or one-by-one, any "
         "tiebreak, on profiles of untied ranked ballots (2-6 candidates); 50% have a planted solid coalition (a random "
